@@ -1128,6 +1128,9 @@ class Object( object ):
                 nam		= self.GA_SNG_NAM if data.service == self.GA_SNG_RPY else self.SA_SNG_NAM
                 assert 'attribute' in data.path['segment'][-1], \
                     "%s path must identify Attribute" % ( nam )
+                clid,inid,_	= resolve( data.path, attribute=True )
+                assert clid == self.class_id and inid == self.instance_id, \
+                    "%s path %r processed by wrong Object %r" % ( nam, data.path['segment'], self )
                 a_id		= data.path['segment'][-1]['attribute']
                 assert str(a_id) in self.attribute, \
                     "%s specified non-existent Attribute" % ( nam )
